@@ -1,6 +1,7 @@
 import NeumannModel.Common.Proto
 import NeumannModel.Ckpt.Model
 import NeumannModel.Ckpt.Slab
+import NeumannModel.Ckpt.Shard
 /-
   Line-protocol driver for the checkpoint / rollback model (C08).  Stateful: one `Db`.
 
@@ -20,6 +21,15 @@ import NeumannModel.Ckpt.Slab
     sl reset | sl set e v | sl del e | sl clear | sl compact | sl reload
                                              (the slot-level `EmbeddingSlab` model of Slab.lean; answer =
                                               every (entity:vector) readable through `get`, by entity)
+    ms reset | ms set key v | ms del key | ms reload
+                                             (the sharded `MetadataSlab` of Shard.lean — 16 shards by the
+                                              key's first byte; keys are hex byte strings, `-` = the empty
+                                              key; `reload` = `MetadataSlab::restore(slab.snapshot())`;
+                                              answer = every `key=value` listed by the merged shards, by key,
+                                              the value as `get` finds it in the key's own shard, then `#len`)
+    kput / kdel with cls 0: the key number is `100 * family + index` (family 0 `plain:`, 1 `user:`,
+                                              2 `order:`, 3 `Note:`, 4 `~tmp:`, 5 `Product:`, 6 `table:`,
+                                              7 `doc:`, 8 `item:`, 9 `/path:` — `Shard.plainFamilies`)
 -/
 open Neumann Neumann.Proto Neumann.Ckpt
 
@@ -141,10 +151,39 @@ def slabStep (s : Slab.Slab) (ws : List String) : Option Slab.Slab :=
   | ["reload"] => some (Slab.reload s)
   | _ => none
 
+def bytesLt : List Nat → List Nat → Bool
+  | [], [] => false
+  | [], _ :: _ => true
+  | _ :: _, [] => false
+  | a :: r, b :: t => a < b || (a = b && bytesLt r t)
+
+def insertByKey (x : List Nat × Int) : List (List Nat × Int) → List (List Nat × Int)
+  | [] => [x]
+  | y :: ys => if bytesLt x.1 y.1 then x :: y :: ys else y :: insertByKey x ys
+
+abbrev MSlab := Shard.Shards (List Nat) Int
+
+def showMSlab (s : MSlab) : String :=
+  let es := (Shard.entries Shard.shardCount s).foldr insertByKey []
+  let item := fun (p : List Nat × Int) =>
+    hex p.1 ++ "=" ++ (match Shard.get Shard.shardCount Shard.firstByte s p.1 with
+      | some v => toString v | none => "?")
+  ",".intercalate (es.map item) ++ s!" #{es.length}"
+
+def mslabStep (s : MSlab) (ws : List String) : Option MSlab :=
+  match ws with
+  | ["reset"] => some Shard.empty
+  | ["set", k, v] => match unhex k, v.toInt? with
+      | some k, some v => some (Shard.insert Shard.shardCount Shard.firstByte s (k, v)) | _, _ => none
+  | ["del", k] => (unhex k).map (Shard.delete Shard.shardCount Shard.firstByte s)
+  | ["reload"] => some (Shard.reload Shard.shardCount Shard.firstByte s)
+  | _ => none
+
 structure DState where
   db : Db := {}
   snaps : List Store := []     -- byte strings kept OUTSIDE the database (`snap` / `restore i`)
   slab : Slab.Slab := {}
+  mslab : MSlab := Shard.empty
 
 /-- driver state: the database, byte strings kept OUTSIDE it (`snap` / `restore i`:
     bare `snapshot_bytes` / `restore_from_bytes`, no checkpoint manager), and a bare embedding slab -/
@@ -161,6 +200,10 @@ def ckptStep (ds : DState) (line : String) : DState × String :=
   | "sl" :: ws =>
     match slabStep ds.slab ws with
     | some s => ({ ds with slab := s }, showSlab s)
+    | none => (ds, "bad-op")
+  | "ms" :: ws =>
+    match mslabStep ds.mslab ws with
+    | some s => ({ ds with mslab := s }, showMSlab s)
     | none => (ds, "bad-op")
   | _ => let r := ckptStep1 ds.db line; ({ ds with db := r.1 }, r.2)
 
